@@ -267,6 +267,7 @@ class Aff:
 
 
 _SP = [None]  # the Space of the shim that created the most recent tagged array
+_LAST_SP = [None]  # the Space of the most recently created shim
 
 
 class SymArr(np.ndarray):
@@ -284,6 +285,11 @@ class SymArr(np.ndarray):
         out = arr.view(SymArr)
         out.tag = None  # results of arithmetic are fresh (promoted) arrays
         return out
+
+    def fill(self, value):
+        p = 1 if self.tag == "c8" else 0
+        for idx in np.ndindex(self.shape):
+            np.ndarray.__setitem__(self, idx, value.single() if (p and isinstance(value, Aff)) else (value if isinstance(value, Aff) else Aff.const(value, _SP[0] or _LAST_SP[0], p)))
 
     def __setitem__(self, key, val):
         if self.tag == "c8":
@@ -412,6 +418,7 @@ class NPShim:
 
     def __init__(self, sp):
         self._sp = sp
+        _LAST_SP[0] = sp
         self.exp = _obj_ufunc("exp", cmath.exp)
         self.sqrt = _obj_ufunc("sqrt", cmath.sqrt)
 
@@ -443,6 +450,24 @@ class NPShim:
     def ones(self, shape, dtype=float, **k):
         r = self._filled(shape, 1.0, dtype)
         return r if r is not None else np.ones(shape, dtype=dtype, **k)
+
+    def empty(self, shape, dtype=float, **k):
+        r = self._filled(shape, 0.0, dtype)
+        return r if r is not None else np.empty(shape, dtype=dtype, **k)
+
+    def full(self, shape, fill_value, dtype=None, **k):
+        r = self._filled(shape, fill_value, dtype if dtype is not None else (complex if isinstance(fill_value, (complex, Aff)) else None))
+        return r if r is not None else np.full(shape, fill_value, dtype=dtype, **k)
+
+    def zeros_like(self, a, dtype=None, **k):
+        if is_sym(a) and dtype is None:
+            out = self._filled(np.shape(a), 0.0, np.complex64 if getattr(a, "tag", None) == "c8" else np.complex128)
+            return out
+        r = self._filled(np.shape(a), 0.0, dtype) if dtype is not None else None
+        return r if r is not None else np.zeros_like(a, dtype=dtype, **k)
+
+    def empty_like(self, a, dtype=None, **k):
+        return self.zeros_like(a, dtype=dtype, **k)
 
     def copy(self, a, *args, **k):
         if is_sym(a):
